@@ -11,6 +11,7 @@ CP = "antismash/common/hmm_rule_parser/cluster_prediction.py"
 PACK = "antismash/outputs/html/area_packing.py"
 RECPROC = "antismash/common/record_processing.py"
 RECORD = "antismash/common/secmet/record.py"
+SUBP = "antismash/common/subprocessing/base.py"
 RHELP = "antismash/common/secmet/features/region/helpers.py"
 FORM = "antismash/common/secmet/features/candidate_cluster/formation.py"
 
@@ -37,6 +38,7 @@ HEADERS = {
     "ids": "From ASV Require Import Base.\nOpen Scope Z_scope.\n",
     "cand": "From ASV Require Import Base Loc.\nOpen Scope Z_scope.\n",
     "regiongbk": "From ASV Require Import Base Loc.\nFrom ASV.C12 Require Import Model.\nOpen Scope Z_scope.\n",
+    "par": "From ASV Require Import Base.\nOpen Scope Z_scope.\n",
     "link": "From ASV Require Import Base.\nOpen Scope Z_scope.\n",
     "hmm11": "From ASV Require Import Base.\nFrom ASV.C13 Require Import Model.\nOpen Scope Z_scope.\n",
     "conv": "From ASV Require Import Base Loc.\nOpen Scope Z_scope.\n",
@@ -53,6 +55,7 @@ PROPS = {
     "detect": ["C03"],
     "ids": ["C16"],
     "link": ["C08"],
+    "par": ["C18"],
     "regiongbk": ["C12"],
     "cand": ["C05"],
     "orf": ["C15"],
@@ -209,6 +212,11 @@ KERNELS = [
          path=[("For", 1), ("If", 0, "body")], take=1, expr="test.operand",
          alias={"feature.location.parts": ("v_parts", "list part")},
          params=[("region", "rdata"), ("parts", "list part")], returns="bool"),
+    # ------------------------------------------------------------------------------------------------ parallel_function
+    dict(name="k_parallel_default_cpus", group="par", file=SUBP, func="parallel_function", take=1, outputs=["cpus"],
+         alias={"get_config().cpus": ("v_cfg_cpus", "Z")}, params=[("cpus", "Z"), ("cfg_cpus", "Z")], returns="Z"),
+    dict(name="k_parallel_inprocess_test", group="par", file=SUBP, func="parallel_function", skip_n=1, take=1, expr="test",
+         alias={"timeout is None": ("v_no_timeout", "bool")}, params=[("cpus", "Z"), ("no_timeout", "bool")], returns="bool"),
     # ------------------------------------------------------------------------------------------------ area packing
     dict(name="k_row_can_fit", group="pack", file=PACK, func="Row.can_fit", params=[("self", "row"), ("area", "feat")],
          returns="bool",
